@@ -60,7 +60,7 @@ impl Cfg {
     }
 }
 
-fn run_scenario<T: HS>(scenario: &str, cfg: &Cfg, out: &mut Out<T>) {
+fn run_scenario<T: HS + scen_stats::NativeBand>(scenario: &str, cfg: &Cfg, out: &mut Out<T>) {
     match scenario {
         "core" => scen_core::run::<T>(cfg, out),
         "relw" => scen_rel::relw::<T>(cfg, out),
@@ -114,9 +114,20 @@ fn main() {
             });
             let mut out = Out::<Sym>::new();
             let res = std::panic::catch_unwind(std::panic::AssertUnwindSafe(|| run_scenario::<Sym>(scenario, &cfg, &mut out)));
+            let mut unsupported = String::new();
             if let Err(e) = res {
                 let msg = e.downcast_ref::<String>().cloned().or_else(|| e.downcast_ref::<&str>().map(|s| s.to_string())).unwrap_or_default();
-                out.fact("no_panic", false, format!("panic during symbolic run: {msg}"));
+                if msg.starts_with("VERIF-UNSUPPORTED") {
+                    unsupported = msg;
+                } else {
+                    out.fact("no_panic", false, format!("panic during symbolic run: {msg}"));
+                }
+            }
+            if !unsupported.is_empty() {
+                out.notes.push(unsupported.clone());
+                out.obligations.clear();
+                out.facts.clear();
+                out.facts.push(("UNSUPPORTED".to_string(), false, unsupported));
             }
             stub::hook_obligations_from_log(&mut out);
             let (garbage, concretised) = verif_sym::with_arena(|a| (a.garbage_reads, a.concretised));
